@@ -69,7 +69,7 @@ def it_advance_spec(it):
     return ite(bits(it, 2, 0) == 0, 0, (it & 0xE0) | ((it << 1) & 0x1F))
 
 
-def make_unit(iset, cube_name, cube_pred, memarch='PMSA', nregions=1, props=('C18', 'C10', 'C04', 'C05', 'C19', 'C01', 'C02', 'C03', 'C06', 'C07', 'C09', 'C12', 'C14')):
+def make_unit(iset, cube_name, cube_pred, memarch='PMSA', nregions=1, props=('C18', 'C10', 'C04', 'C05', 'C19', 'C01', 'C02', 'C03', 'C06', 'C07', 'C09', 'C12', 'C14', 'C20')):
     m = registry.mods()
     A = m.arm_v6.ArmV6
     Rg = m.registers.Registers
@@ -237,6 +237,14 @@ def make_unit(iset, cube_name, cube_pred, memarch='PMSA', nregions=1, props=('C1
         ob.props = ['C19']
         ob = eng.oblige('frame', '%s: object graph shape unchanged' % tag, mach.shape_ok())
         ob.props = ['C18']
+        # ---- C20 ownership: the step reads and writes nothing but the instance's own state (the symbolic machine,
+        # its memory and the configuration) and immutable program constants
+        ob = eng.oblige('frame.own', '%s: no write to an object outside the processor instance' % tag, not eng.foreign_writes,
+                        detail='; '.join(eng.foreign_writes[:4]))
+        ob.props = ['C20']
+        ob = eng.oblige('frame.own', '%s: no read of mutable state outside the processor instance' % tag, not eng.foreign_reads,
+                        detail='; '.join(sorted(eng.foreign_reads)[:4]))
+        ob.props = ['C20']
         # ---- functional specification of the executed encoding (decode + operation), where a row exists
         rows = ENC.rows_for(kname)
         if rows and not events:
